@@ -11,3 +11,8 @@ CHECKS["C18"] = {
   "text": "Exhaustive over the finite domain: every value whose String() is a keyword (scan 0..65535, all single bits, all constants read from the source with go/parser so that the scan is shown complete) is mapped back by FromString, keywords are unique per type and equal the declared line comment; every keyword is also placed in a minimal module and parsed, printed, re-parsed and compared under LLVM's reading; all subsets of AllocKind and DISPFlag members and all 1- and 2-member DIFlag sets are enumerated, larger DIFlag sets and all 1024 numeric `cc N` forms are covered.",
   "note": "Trusts go/parser+go/types reading of ir/enum/enum.go, the hand-written module templates (checks/c18/module_test.go) and LLVM 14 tools; LLVM-15-only keywords are judged by llir's own round trip only. Known finding KF-C18-cc1 (`cc 1`).",
 }
+CHECKS["C09"] = {
+  "technique": "property-based testing: exhaustive enumeration of all values of small widths in every notation + rapid-generated widths/values against a big-integer reference codec; LLVM 14 differential on printed output",
+  "text": "Exhaustive for widths 1..13 (quick) / 1..17 (thorough): every value in [-2^(w-1),2^w) in every notation (decimal, u0x, s0x, true/false, case and leading-zero variants). Widths up to 65535 by boundary sets and rapid-drawn low-entropy patterns that drive the decimal-vs-hex printer heuristic. Oracles: math/big reference reading of each notation, Ident→NewIntFromString round trip, the same through asm.ParseString, and llvm-as|llvm-dis on llir's printed output.",
+  "note": "Trusts math/big and the reference reading in checks/c09 (s0x = two's complement by type width, as the property states; LLVM's own s0x reading is deliberately not used). Values are compared modulo 2^w.",
+}
